@@ -24,6 +24,11 @@ def _apply(root: str, m: dict, dst: str) -> str:
     if m.get("diff"):
         # a whole behaviour-preserving refactoring kept as a unified diff (benign/<id>/refactor.diff)
         import subprocess
+        if m.get("base"):
+            r0 = subprocess.run(["patch", "-p1", "-s", "--no-backup-if-mismatch", "-i", os.path.join(report.VERIF, m["base"])],
+                                cwd=dst, capture_output=True, text=True)
+            if r0.returncode != 0:
+                return "base refactoring does not apply to this tree"
         r = subprocess.run(["patch", "-p1", "-s", "--no-backup-if-mismatch", "-i", os.path.join(report.VERIF, m["diff"])],
                            cwd=dst, capture_output=True, text=True)
         if r.returncode != 0:
